@@ -22,14 +22,13 @@ type numRoles struct {
 	why                                    string
 }
 
-var numRolesCache = map[*Program]*numRoles{}
 
 func numericRoles(p *Program) *numRoles {
-	if nr, ok := numRolesCache[p]; ok {
-		return nr
+	if p.memoNumRoles != nil {
+		return p.memoNumRoles
 	}
 	nr := &numRoles{callers: map[*ssa.Function]map[*ssa.Function]bool{}}
-	numRolesCache[p] = nr
+	p.memoNumRoles = nr
 	pkg := p.SSA.Package(p.Eval.Types)
 	if pkg == nil {
 		nr.why = "evaluator package has no SSA form"
